@@ -160,16 +160,16 @@ struct Dumper
             // EmitCaseLabel(case_parm, parameter_list): the label name the emitter derives + the raw tree
             const sval_t cp = n[1];
             out += "(case ";
-            char name[12]{};
+            char name[21]{};      // as EmitCaseLabel(int64_t): 20 characters and the terminator
             const char* nm = nullptr;
             int kind = 0;       // 1 int, 2 string, 3 negated integer, 4 negated something else, 0 bad
-            if (cp.node[0].type == statementType_e::Integer) { kind = 1; std::to_chars(name, name + 11, int32_t(cp.node[1].intValue)); nm = name; }
+            if (cp.node[0].type == statementType_e::Integer) { kind = 1; std::to_chars(name, name + sizeof(name) - 1, (int64_t)cp.node[1].longValue); nm = name; }
             else if (cp.node[0].type == statementType_e::String) { kind = 2; nm = cp.node[1].stringValue; }
             else if (cp.node[0].type == statementType_e::Func1Expr && cp.node[1].byteValue == OP_UN_MINUS) {
-                // the emitter reads node[2].node[1].intValue whatever node[2] is: for anything but an Integer
-                // node that is the low half of a pointer / string address (kind 4: name not reproducible)
+                // the emitter reads node[2].node[1].longValue whatever node[2] is: for anything but an Integer
+                // node that is a pointer / string address (kind 4: name not reproducible)
                 kind = cp.node[2].node[0].type == statementType_e::Integer ? 3 : 4;
-                std::to_chars(name, name + 11, -(int32_t)cp.node[2].node[1].intValue); nm = name;
+                std::to_chars(name, name + sizeof(name) - 1, (int64_t)(0 - cp.node[2].node[1].longValue)); nm = name;
             }
             out += std::to_string(kind); out += ' ';
             if (kind) str(nm); else out += "- 0";
